@@ -134,6 +134,26 @@ func runCCRound(c *engine.Ctx, rd ccRound) {
 	opts := make([]nodeenrollment.Option, 0, len(base)+rd.OptLen+rd.SpareCap)
 	opts = append(opts, base...)
 	opts = append(opts, pads[:rd.OptLen]...)
+	// the option list may contain nil entries (the library skips them): they stay where the application put them
+	nilAt := -1
+	if rd.Round%3 == 1 {
+		nilAt = len(base) + rd.OptLen/2
+		opts = append(opts[:nilAt], append([]nodeenrollment.Option{nil}, opts[nilAt:]...)...)
+		if rd.Round%2 == 1 {
+			opts = append(opts, nil)
+		}
+	}
+	nilPattern := func() string {
+		out := ""
+		for _, o := range opts {
+			if o == nil {
+				out += "n"
+			} else {
+				out += "o"
+			}
+		}
+		return out
+	}
 	var listenerState, listenerStateCopy *structpb.Struct
 	if rd.ListenerState {
 		listenerState = uniqueState("listener-default", rd.Round)
@@ -269,6 +289,7 @@ func runCCRound(c *engine.Ctx, rd ccRound) {
 		bGen.wait()
 		return nodetls.GenerateServerCertificates(ctx, st, req, opt...)
 	}
+	nilBefore := nilPattern()
 	lw, err := world.NewLW(s, world.LWCfg{Options: opts, OptionsSet: true, Acceptors: rd.Acceptors, FetchFn: fetchFn, GenFn: genFn})
 	if err != nil {
 		r.Broken("listener: " + err.Error())
@@ -449,6 +470,12 @@ func runCCRound(c *engine.Ctx, rd ccRound) {
 			rec.Conn.Close()
 		}
 	}
+	if nilAt >= 0 {
+		r.Count("rounds_with_nil_entries_in_listener_options", 1)
+		if got := nilPattern(); got != nilBefore {
+			r.Violation("isolation:listener-option-list-rewritten", fmt.Sprintf("the application's option list was rearranged while connections were handled (nil / non-nil entries %s, now %s)", nilBefore, got), map[string]any{"round": rd})
+		}
+	}
 	if rd.ListenerState {
 		r.Count("rounds_with_state_in_listener_options", 1)
 		if !proto.Equal(listenerState, listenerStateCopy) {
@@ -549,6 +576,7 @@ func runConcurrent(c *engine.Ctx) engine.Result {
 	r.Require("enrollments_checked:wrapper", 5)
 	r.Require("forged_rejected", 5)
 	r.Require("malformed_rejected", 20)
+	r.Require("rounds_with_nil_entries_in_listener_options", int64(rounds/4))
 	r.Require("enrollments_checked:twin", 20)
 	r.Require("rounds_with_state_in_listener_options", int64(rounds/5))
 	return res
